@@ -335,18 +335,17 @@ func (cr *ChunkReader) parseChunkHeaderBytes(header []byte, l *int) (int64, stri
 		cr.stash = nil
 	}
 
-	rdr := bufio.NewReader(bytes.NewReader(header))
+	hdrBytes := bytes.NewReader(header)
+	rdr := bufio.NewReader(hdrBytes)
 
 	// After the first chunk each chunk header should start
-	// with "\n\r\n"
-	if !cr.isFirstHeader && stashLen == 0 {
+	// with "\r\n". A stashed partial header still has it, the stash
+	// holds the unmodified bytes read so far.
+	if !cr.isFirstHeader {
 		err := readAndSkip(rdr, '\r', '\n')
 		if err != nil {
 			return cr.handleRdrErr(err, header)
 		}
-
-		copy(header, header[2:])
-		*l = *l - 2
 	}
 
 	// read and parse the chunk size
@@ -435,10 +434,13 @@ func (cr *ChunkReader) parseChunkHeaderBytes(header []byte, l *int) (int64, stri
 		return cr.handleRdrErr(err, header)
 	}
 
-	ind := bytes.Index(header, []byte{'\r', '\n'})
 	cr.isFirstHeader = false
 
-	return chunkSize, sig, ind + len(chunkHdrDelim) - stashLen, nil
+	// the chunk data starts after the bytes consumed so far, the
+	// offset is relative to the caller's buffer (without the stash)
+	consumed := len(header) - rdr.Buffered() - hdrBytes.Len()
+
+	return chunkSize, sig, consumed - stashLen, nil
 }
 
 // Stashes the header in cr.stash and returns "errskipHeader"
